@@ -90,7 +90,7 @@ Record hold := Hold {
   h_key : str;
   h_T : Z;                     (* LockTimeoutSeconds as given (0: none) *)
   h_locked : bool;             (* Lock.Locked *)
-  h_unl : bool;                (* ghost: Unlock has been called on it and returned *)
+  h_unl : bool;                (* ghost: Unlock has been called on it (set when the call returns, or when it begins if it is run in steps) *)
   h_ren : option renewer       (* the goroutine started for it by newRenewer *)
 }.
 #[global] Instance eta_hold : Settable _ := settable! Hold <h_name; h_key; h_T; h_locked; h_unl; h_ren>.
@@ -111,6 +111,7 @@ Inductive tev :=
 | TRpc (k : rpckind) (j : nat) (name key : str) (T : Z) (at_ : Z) (ok : bool) (e : option err)
                                (* the RPC of hold j took effect on the server at [at_]; ok = locked / unlocked *)
 | TRpcFail (k : rpckind) (j : nat) (at_ : Z)    (* transport error: connection closed *)
+| TUnlockCall (j : nat) (at_ : Z)               (* client.Unlock of hold j has begun (only recorded for an Unlock run in steps) *)
 | TUnlockRet (j : nat) (at_ : Z)                (* client.Unlock of hold j has returned *)
 | TCloseRet (at_ : Z)
 | TCrash (c : crash) (at_ : Z)
@@ -207,35 +208,69 @@ Definition do_acquire (cc : ccfg) (blocking : bool) (name : str) (T size : Z) (s
   end.
 
 (** ** Lock.Unlock() -> Client.Unlock(name, key) *)
+
+(** maybeRemoveRenewer(name): LoadAndDelete + Stop *)
+Definition unlock_stop (cc : ccfg) (name : str) (st : cstate) : cstate :=
+  if cc_noauto cc then st else
+  match cs_map st !! name with
+  | Some i => stop_renewer i (st <| cs_map := delete name (cs_map st) |>)
+  | None => st
+  end.
+
+(** the Unlock RPC takes effect on the server *)
+Definition unlock_rpc (j : nat) (h : hold) (st1 : cstate) : cstate :=
+  if cs_closed st1 then emit (TRpcFail KUnlock j (now st1)) st1
+  else let '(srv', outs) := srv_event (EUnlock (Some csid) (h_name h) (h_key h)) (cs_srv st1) in
+       match last outs with
+       | Some (OResp (RUnlock u e)) =>
+           emit (TRpc KUnlock j (h_name h) (h_key h) 0 (now st1) u e) (st1 <| cs_srv := srv' |>)
+       | _ => st1 <| cs_srv := srv' |>
+       end.
+
+(** the ghost flag *)
+Definition mark_unl (j : nat) (st2 : cstate) : cstate :=
+  match cs_holds st2 !! j with
+  | Some h2 => st2 <| cs_holds := <[j := h2 <| h_unl := true |>]> (cs_holds st2) |>
+  | None => st2
+  end.
+
+(** the whole call at one instant *)
 Definition do_unlock (cc : ccfg) (j : nat) (st : cstate) : cstate :=
   match cs_holds st !! j with
   | None => st
   | Some h =>
       if negb (h_locked h) then st else      (* Lock.Unlock: ErrLockNotLocked, nothing sent *)
-      let st1 :=
-        if cc_noauto cc then st else
-        match cs_map st !! h_name h with
-        | Some i => stop_renewer i (st <| cs_map := delete (h_name h) (cs_map st) |>)
-        | None => st
-        end in
+      let st1 := unlock_stop cc (h_name h) st in
       match cs_crashed st1 with
       | Some _ => st1
-      | None =>
-          let st2 :=
-            if cs_closed st1 then emit (TRpcFail KUnlock j (now st1)) st1
-            else
-              let '(srv', outs) := srv_event (EUnlock (Some csid) (h_name h) (h_key h)) (cs_srv st1) in
-              match last outs with
-              | Some (OResp (RUnlock u e)) =>
-                  emit (TRpc KUnlock j (h_name h) (h_key h) 0 (now st1) u e) (st1 <| cs_srv := srv' |>)
-              | _ => st1 <| cs_srv := srv' |>
-              end in
-          let st3 := match cs_holds st2 !! j with
-                     | Some h2 => st2 <| cs_holds := <[j := h2 <| h_unl := true |>]> (cs_holds st2) |>
-                     | None => st2
-                     end in
-          emit (TUnlockRet j (now st3)) st3
+      | None => let st3 := mark_unl j (unlock_rpc j h st1) in emit (TUnlockRet j (now st3)) st3
       end
+  end.
+
+(** the same call in its three steps, so that virtual time (and the renew loops) can move while the request or the
+    reply is in flight, or while rpcWithRetry sleeps after an Unavailable first attempt: the renewer is stopped FIRST *)
+Definition do_unlock_begin (cc : ccfg) (j : nat) (st : cstate) : cstate :=
+  match cs_holds st !! j with
+  | None => st
+  | Some h =>
+      if negb (h_locked h) then st else
+      let st1 := unlock_stop cc (h_name h) (emit (TUnlockCall j (now st)) st) in
+      match cs_crashed st1 with
+      | Some _ => st1
+      | None => mark_unl j st1
+      end
+  end.
+
+Definition do_unlock_send (j : nat) (st : cstate) : cstate :=
+  match cs_holds st !! j with
+  | None => st
+  | Some h => if negb (h_locked h) then st else unlock_rpc j h st
+  end.
+
+Definition do_unlock_end (j : nat) (st : cstate) : cstate :=
+  match cs_holds st !! j with
+  | None => st
+  | Some h => if negb (h_locked h) then st else emit (TUnlockRet j (now st)) st
   end.
 
 (** ** Close *)
@@ -401,6 +436,9 @@ Inductive item :=
 | ILock (name : str) (T size : Z)
 | ITryLock (name : str) (T size : Z)
 | IUnlock (j : nat)
+| IUnlockBegin (j : nat)              (* Unlock in steps: maybeRemoveRenewer *)
+| IUnlockSend (j : nat)               (*   the Unlock RPC reaches the server *)
+| IUnlockEnd (j : nat)                (*   the reply is back: Unlock returns *)
 | IClose
 | IAdvance (dt : Z)                  (* ns *)
 | IHold (j : nat) (s : stage)        (* interposer: keep the next Renew RPC of hold j in flight at s *)
@@ -409,7 +447,10 @@ Inductive item :=
 | IProbe.
 
 Definition is_main_call (it : item) : bool :=
-  match it with ILock _ _ _ | ITryLock _ _ _ | IUnlock _ | IClose => true | _ => false end.
+  match it with
+  | ILock _ _ _ | ITryLock _ _ _ | IUnlock _ | IUnlockBegin _ | IUnlockSend _ | IUnlockEnd _ | IClose => true
+  | _ => false
+  end.
 
 Definition step (cc : ccfg) (st : cstate) (it : item) : cstate :=
   match cs_crashed st with
@@ -420,6 +461,9 @@ Definition step (cc : ccfg) (st : cstate) (it : item) : cstate :=
       | ILock name T size => do_acquire cc true name T size st
       | ITryLock name T size => do_acquire cc false name T size st
       | IUnlock j => do_unlock cc j st
+      | IUnlockBegin j => do_unlock_begin cc j st
+      | IUnlockSend j => do_unlock_send j st
+      | IUnlockEnd j => do_unlock_end j st
       | IClose => do_close st
       | IAdvance dt => do_advance dt st
       | IHold j s => set_arm j (Some s) st
@@ -455,7 +499,7 @@ Definition in_renew (st : cstate) (i : nat) : bool :=
 Definition stopdrop_at (cc : ccfg) (st : cstate) (it : item) : bool :=
   active st && negb (cc_noauto cc) &&
   match it with
-  | IUnlock j =>
+  | IUnlock j | IUnlockBegin j =>
       match cs_holds st !! j with
       | Some h => h_locked h && match cs_map st !! h_name h with Some i => in_renew st i | None => false end
       | None => false
@@ -485,11 +529,14 @@ Definition renewmap_at (cc : ccfg) (st : cstate) (it : item) : bool :=
   end.
 Definition excluded_renewmap (cc : ccfg) (sched : list item) : bool := any_pre cc (renewmap_at cc) cinit sched.
 
-(** ** Use of the API the property does not speak about: a call on a closed client, a second Unlock of one hold *)
+(** ** Use of the API the property does not speak about: a call on a closed client, a second Unlock of one hold
+    (and, for an Unlock run in steps, its steps out of order) *)
 Definition misuse_at (st : cstate) (it : item) : bool :=
   (cs_closed st && is_main_call it) ||
   match it with
-  | IUnlock j => match cs_holds st !! j with Some h => h_unl h | None => false end
+  | IUnlock j | IUnlockBegin j => match cs_holds st !! j with Some h => h_unl h | None => false end
+  (* the later steps of an Unlock only after its first *)
+  | IUnlockSend j | IUnlockEnd j => match cs_holds st !! j with Some h => negb (h_unl h) | None => true end
   | _ => false
   end.
 Definition wf_sched (cc : ccfg) (sched : list item) : bool := negb (any_pre cc misuse_at cinit sched).
@@ -532,17 +579,20 @@ Definition timely (cc : ccfg) (j : nat) (sched : list item) : bool :=
 
 (** no IUnlock j and no IClose in the schedule *)
 Definition keeps (j : nat) (sched : list item) : bool :=
-  forallb (λ it, match it with IUnlock i => negb (i =? j)%nat | IClose => false | _ => true end) sched.
+  forallb (λ it, match it with
+                 | IUnlock i | IUnlockBegin i | IUnlockSend i | IUnlockEnd i => negb (i =? j)%nat
+                 | IClose => false | _ => true end) sched.
 
 (** ** Trace predicates *)
 
 Definition crash_by (c : crash) : nat := match c with CrOutOfSync j | CrRenewFailed j | CrSendClosed j => j end.
 
-(** C19_stop for hold j: after TUnlockRet j no Renew of hold j takes effect and no panic of j's renewer *)
+(** C19_stop for hold j: after TUnlockRet j — and, for an Unlock run in steps, already after TUnlockCall j, i.e. during
+    the whole call — no Renew of hold j takes effect and no panic of j's renewer *)
 Definition stop_auto (j : nat) (acc : bool * bool) (e : tev) : bool * bool :=
   let '(seen, ok) := acc in
   match e with
-  | TUnlockRet i _ => (seen || (i =? j)%nat, ok)
+  | TUnlockCall i _ | TUnlockRet i _ => (seen || (i =? j)%nat, ok)
   | TRpc KRenew i _ _ _ _ _ _ | TRpcFail KRenew i _ => (seen, ok && negb (seen && (i =? j)%nat))
   | TCrash c _ => (seen, ok && negb (seen && (crash_by c =? j)%nat))
   | _ => (seen, ok)
